@@ -218,7 +218,8 @@ PROPS = {
     ),
     'C04': dict(
         title='Zinc text conforms to the Project Haystack grammar in both directions',
-        verus=[('u_zparse', [r'^parse_str_escape$', r'^Lexer::read$', r'^parse_literal$', r'^parse_id$', r'^lemma_lit_run_bytes$', r'^parse_unit$', r'^is_unit_char$'])],
+        verus=[('u_zparse', [r'^parse_str_escape$', r'^Lexer::read$', r'^parse_literal$', r'^parse_id$', r'^lemma_lit_run_bytes$', r'^parse_unit$', r'^is_unit_char$']),
+               ('u_enc', [r'^write_quoted_str$', r'^Str::to_zinc$', r'^Marker::to_zinc$', r'^Remove::to_zinc$', r'^Na::to_zinc$', r'^Bool::to_zinc$'])],
         kani=[dict(harness='k_scanner_classes', klass='complete', schema=['u8'], family=None, target='Scanner::is_* byte classes'),
               dict(harness='k_unit_char_class', klass='complete', schema=['u8'], family=None, target='zinc number::is_unit_char'),
               dict(harness='k_u8_classes', klass='complete', schema=['u8'], family=None, target='u8::is_ascii_*')],
@@ -230,9 +231,10 @@ PROPS = {
                     'reader uses (spaces, newlines, digits, hex digits, id/ref/symbol/unit/zone alphabets, exponent and sign sets) is '
                     'the byte set written in the contracts. Verus also proves on the real bodies that a literal / identifier / unit is exactly '
                     'the maximal run of its class at the head of the input (nothing else consumed), and that a capitalised literal not '
-                    'followed by ( is decoded by the keyword table of the grammar: M R T F N NA NaN INF, anything else is an error.'),
+                    'followed by ( is decoded by the keyword table of the grammar: M R T F N NA NaN INF, anything else is an error. Writer side: '
+                    'the keyword writers emit M R NA T F and the quoted-string writer emits " + enc(s) + " with enc written from the grammar.'),
         not_decided=('The \\uXXXX clause (from_str_radix/from_utf16 have no Verus model); number spelling '
-                     '(the string handed to str::parse::<f64>); the whole writer side (to_zinc goes through write!/core::fmt and '
+                     '(the string handed to str::parse::<f64>); the writer side other than keywords and quoted strings (write!/core::fmt, '
                      'enumerate() loops); Date/Time/DateTime/Coord text; whole-document layout. The unit class tests `> 128`, i.e. excludes '
                      'byte 0x80 that the grammar admits -- harmless: no database unit contains it (C15 lemma).'),
         technique='contract-based deductive verification: Verus per-letter postconditions on the real body + Kani complete byte-class harnesses',
@@ -290,18 +292,20 @@ PROPS = {
     ),
     'C01': dict(
         title='Zinc encode -> decode returns the original value',
-        verus=[('u_zparse', [r'^lemma_keyword_roundtrip$', r'^Lexer::read$', r'^parse_literal$', r'^parse_str_escape$', r'^lemma_lit_run_bytes$'])],
+        verus=[('u_zparse', [r'^lemma_keyword_roundtrip$', r'^Lexer::read$', r'^parse_literal$', r'^parse_str_escape$', r'^lemma_lit_run_bytes$']),
+               ('u_enc', [r'^write_quoted_str$', r'^Str::to_zinc$', r'^lemma_str_escape_inverse$', r'^Marker::to_zinc$', r'^Remove::to_zinc$', r'^Na::to_zinc$', r'^Bool::to_zinc$'])],
         kani=[dict(harness='k_zinc_keywords', klass='complete', schema=['u8'], family=None, target='to_zinc of Marker/Remove/Na/Bool')],
         witness='enum:zinc-roundtrip-scalars',
         design_ref='DESIGN.md section 4, C01',
         level_text=('Proof for the keyword-valued scalars only (Marker, Remove, NA, true, false; Null on the reader side): Kani proves the real '
                     'writers emit exactly M, R, NA, T, F; Verus proves on the real Lexer::read that a capitalised literal is read as the maximal '
                     'run of literal bytes and mapped by the grammar\'s keyword table, and the corollary lemma composes the two into '
-                    'decode(encode(v)) == v. For strings, the reader half is proved: each escape letter the writer can emit (" t r n \\\\ $) '
-                    'decodes to the character the grammar assigns to it.'),
-        not_decided=('The writer half for Str/Uri/Ref/Symbol/XStr (its per-character output goes through write_fmt and a for-loop over chars(): '
-                     'CBMC does not finish even on one concrete character (measured 300 s), and this Verus sees neither byte-string literal '
-                     'contents nor the items of str::chars()); Number, Coord, Date, Time, DateTime (core::fmt / chrono text); List, Dict and '
+                    'decode(encode(v)) == v (the writers\' bytes are also proved in Verus after rule R18). For strings both halves are proved at the '
+                    'character level: the real quoted-string writer emits exactly " + enc(s) + " where enc spells each character as the grammar '
+                    'prescribes (the six letter escapes, \\\\uXXXX for other C0 controls, everything else as UTF-8); the real reader decodes each '
+                    'escape letter to the character the grammar assigns to it; lemma_str_escape_inverse composes them per character.'),
+        not_decided=('The whole-string inverse for the reader (that parse_str applied to " + enc(s) + " returns s: an induction over the byte-level loop, '
+                     'not attempted); Uri/Ref/Symbol/XStr writers beyond panic-freedom; Number, Coord, Date, Time, DateTime (core::fmt / chrono text); List, Dict and '
                      'Grid layout (enumerate() loops); nesting. Known outside the decided part: a grid with meta is written with the meta after '
                      'the newline and does not decode; a Uri containing a lone backslash comes back with two.'),
         technique='contract-based deductive verification: Verus postconditions on the real lexer + Kani complete harness on the real keyword writers',
